@@ -145,7 +145,7 @@ impl Duo {
 
     fn publish(&mut self, rng: &mut Rng, from_client: bool) {
         let ver = self.ver;
-        let qos = rng.below(3) as u8;
+        let qos = *rng.pick(&[0u8, 1, 2, 2, 2]);
         let (vac, tam) = if from_client {
             let c = self.c.conn.as_ref().unwrap();
             (c.get_receive_maximum_vacancy_for_send(), c.verif_state().topic_alias_send.as_ref().map(|t| t.0).unwrap_or(0))
@@ -226,7 +226,7 @@ pub fn duo_case(case_seed: u64, rng: &mut Rng, stats: &mut CaseStats) -> (String
     let mut props_s: Vec<Property> = Vec::new();
     if ver == 5 {
         for ps in [&mut props_c, &mut props_s] {
-            if rng.chance(1, 2) { ps.push(mqtt::packet::ReceiveMaximum::new(*rng.pick(&[1u16, 2, 3])).unwrap().into()) }
+            if rng.chance(3, 4) { ps.push(mqtt::packet::ReceiveMaximum::new(*rng.pick(&[1u16, 1, 2, 3])).unwrap().into()) }
             if rng.chance(1, 2) { ps.push(mqtt::packet::TopicAliasMaximum::new(*rng.pick(&[0u16, 1, 2])).unwrap().into()) }
             if rng.chance(1, 4) { ps.push(mqtt::packet::MaximumPacketSize::new(*rng.pick(&[300u32, 1000])).unwrap().into()) }
         }
@@ -255,7 +255,7 @@ pub fn duo_case(case_seed: u64, rng: &mut Rng, stats: &mut CaseStats) -> (String
             continue;
         }
         let roll = rng.below(100);
-        if roll < 4 {
+        if roll < 6 {
             // transport loss at an arbitrary point (bytes in flight are discarded, possibly mid-frame)
             d.losses += 1;
             if rng.chance(1, 2) && !d.c2s.is_empty() { d.deliver(rng, true, false) }
